@@ -128,18 +128,37 @@ impl Scenario for Conform {
             _ => {}
         }
         let mut stats_ext = "json".to_string();
+        let mut checks_toml: Option<String> = None;
+        let mut filtered = false;
         if rng.chance(1, 3) {
             stats_ext = if rng.chance(1, 2) { "json".into() } else { "toml".into() };
             parts.extend(s(&["-S", "@STATS@", "-D", &stats_ext]));
         }
         if rng.chance(1, 6) {
             let f = pick_filter(&st, &mut rng);
+            filtered = f != Filter::None;
             if f != Filter::None {
                 parts.extend(f.args());
                 label.push_str(" filter");
             }
         }
+        if rng.chance(1, 8) {
+            // verbosity up to trace: more is logged, nothing more is found
+            parts.extend(s(&["-v", &rng.range(0, 4).to_string()]));
+            label.push_str(" -v");
+        }
+        if !filtered && rng.chance(1, 10) {
+            // custom checks that conforming data satisfies: the true packet count, the RDH version in use
+            let mut t = format!("cdps = {}\n", st.total_packets());
+            if rng.chance(1, 2) {
+                t.push_str(&format!("rdh_version = {}\n", cfg.version));
+            }
+            checks_toml = Some(t);
+            parts.extend(s(&["-c", "@CHECKS@"]));
+            label.push_str(" -c");
+        }
         let mut spec = specgen::spec(im, &parts, input);
+        spec.custom_checks_toml = checks_toml;
         spec.stats_ext = stats_ext;
         let est = 200 + st.total_packets() as u64 * 12;
         if rng.chance(4, 5) {
